@@ -132,7 +132,7 @@ static const BaseT BASES[] = {
     {"duration", "P1D", "P1M", "P1Y2M3DT4H5M6.7S", 0, 1, 0, 0},
     {"dateTime", "2000-01-01T00:00:00", "2001-06-15T12:30:00Z", "2002-12-31T23:59:59.5+01:00", 0, 1, 0, 0},
     {"date", "2000-01-01", "2001-06-15Z", "2002-12-31", 0, 1, 0, 0},
-    {"time", "01:00:00", "12:30:00Z", "23:59:59.5", 0, 1, 0, 0},
+    {"time", "01:00:00Z", "12:30:00Z", "23:59:59.5Z", 0, 1, 0, 0},
     {"gYearMonth", "2000-01", "2001-06", "2002-12", 0, 1, 0, 0},
     {"gYear", "2000", "2001", "2002", 0, 1, 0, 0},
     {"gMonthDay", "--01-01", "--06-15", "--12-31", 0, 1, 0, 0},
@@ -164,8 +164,11 @@ inline std::vector<FacetSpec> facets_for(const BaseT& b) {
     }
     F("pattern", "<xs:pattern value='" + xml_attr_esc(rx_quote(b.v1)) + "'/>");
     F("pattern-x2", "<xs:pattern value='" + xml_attr_esc(rx_quote(b.v1)) + "'/><xs:pattern value='" + xml_attr_esc(rx_quote(b.v3)) + "'/>");
-    F("enumeration", "<xs:enumeration value='" + v1 + "'/><xs:enumeration value='" + v3 + "'/>");
-    F("enumeration-x1", "<xs:enumeration value='" + v2 + "'/>");
+    bool isBool = strcmp(b.name, "boolean") == 0;   // xs:boolean has no enumeration facet
+    if (!isBool) {
+        F("enumeration", "<xs:enumeration value='" + v1 + "'/><xs:enumeration value='" + v3 + "'/>");
+        F("enumeration-x1", "<xs:enumeration value='" + v2 + "'/>");
+    }
     if (b.ws == 2) { F("whiteSpace-preserve", "<xs:whiteSpace value='preserve'@F/>"); F("whiteSpace-replace", "<xs:whiteSpace value='replace'@F/>"); }
     if (b.ws == 1) F("whiteSpace-replace", "<xs:whiteSpace value='replace'@F/>");
     F("whiteSpace-collapse", "<xs:whiteSpace value='collapse'@F/>");
@@ -218,8 +221,9 @@ inline void gen_xsd_facet(std::vector<GCase>& out, bool thorough) {
             // two-step derivations
             std::vector<std::pair<std::string, std::string>> steps;
             std::string v1 = xml_attr_esc(b.v1), v2 = xml_attr_esc(b.v2), v3 = xml_attr_esc(b.v3);
-            steps.push_back({"<xs:enumeration value='" + v1 + "'/><xs:enumeration value='" + v2 + "'/>", "<xs:pattern value='" + xml_attr_esc(rx_quote(b.v1)) + "'/>"});
-            steps.push_back({"<xs:pattern value='[^#]*'/>", "<xs:pattern value='[^!]*'/><xs:enumeration value='" + v2 + "'/><xs:enumeration value='" + v3 + "'/>"});
+            bool isBool = strcmp(b.name, "boolean") == 0;
+            if (!isBool) steps.push_back({"<xs:enumeration value='" + v1 + "'/><xs:enumeration value='" + v2 + "'/>", "<xs:pattern value='" + xml_attr_esc(rx_quote(b.v1)) + "'/>"});
+            steps.push_back({"<xs:pattern value='[^#]*'/>", isBool ? std::string("<xs:pattern value='[^!]*'/>") : "<xs:pattern value='[^!]*'/><xs:enumeration value='" + v2 + "'/><xs:enumeration value='" + v3 + "'/>"});
             if (b.ordered) steps.push_back({"<xs:minInclusive value='" + v1 + "'/>", "<xs:maxInclusive value='" + v2 + "'/>"});
             if (b.lenKind) steps.push_back({"<xs:maxLength value='10'/>", "<xs:minLength value='1'/><xs:maxLength value='3'/>"});
             if (b.ws == 2) steps.push_back({"<xs:whiteSpace value='replace'/>", "<xs:whiteSpace value='collapse'/>"});
